@@ -1,6 +1,4 @@
-\* C06 thorough (liveness, 2 nodes, 2 faults): weak fairness of push/pull between connected pairs and of watcher callbacks
-\* returning; faults bounded (2: partition, restart, duplicate delivery); (<>[]Healed) => <>[](all
-\* nodes read the same value and watchers caught up).
+\* C06 thorough (liveness, 2 nodes, 2 faults, blocking watcher on node 1).
 CONSTANTS
   N = 2
   NI = 1
@@ -16,6 +14,11 @@ CONSTANTS
   AllowGarbage = FALSE
   AllowPartition = TRUE
   AllowJunkPP = FALSE
+  GateNodes = {}
+  InboxCap = 1
+  VersionTest = TRUE
+  MaxDel = 0
+  ObsoleteTimeout = 1
   ConsumeNet = TRUE
   Ideal = TRUE
   Ghost = FALSE
